@@ -14,11 +14,13 @@
 
 import ast
 import base64
+import datetime
 import hashlib
 import inspect
 import json
 import textwrap
 from abc import ABC, abstractmethod
+from decimal import Decimal
 from types import CodeType
 from typing import Callable, Set, Optional, List, Union, Type
 from weakref import WeakKeyDictionary
@@ -95,7 +97,23 @@ def fn_code_hash(fn: Callable, salt: str = None, environment: bytes = None) -> s
         try:
             return json.dumps(MementoCodec.encode_arg(o), sort_keys=True)
         except (TypeError, ValueError):
+            pass
+        # Values the argument codec cannot describe: use a structural description for the
+        # built-in containers and repr() for value types whose repr() is the same in every
+        # process; anything else is described by its type only.
+        if isinstance(o, (set, frozenset)):
+            items = sorted(stable_repr(x) for x in o)
+        elif isinstance(o, (tuple, list)):
+            items = [stable_repr(x) for x in o]
+        elif isinstance(o, dict):
+            items = sorted(stable_repr(k) + ":" + stable_repr(v) for (k, v) in o.items())
+        elif isinstance(
+            o, (bytes, bytearray, complex, range, datetime.time, datetime.timedelta, Decimal)
+        ):
+            items = [repr(o)]
+        else:
             return type(o).__module__ + ":" + type(o).__qualname__
+        return type(o).__qualname__ + "(" + ", ".join(items) + ")"
 
     if isinstance(fn, MementoFunctionType):
         memento_fn = fn  # type: MementoFunctionType
